@@ -192,9 +192,9 @@ QUICK = {
             'ce_triv': ['svb_append_element__pcE', 'svb_emplace_into_current__pE_pcE', 'svb_erase_range', 'svb_append_range__strong_pcE_pcE', 'svb_assign_with_range__pcE_pcE',
                         'svb_move_left__pE_pE_pE', 'svb_ctor__pcE_pcE_pcA', 'svb_resize_with__ul']},
     'C16': {'pair17': ['nm_op_eq__pcsv_pcsvM', 'nm_op_ne__pcsv_pcsvM', 'nm_op_lt__pcsv_pcsvM', 'nm_op_lt__pcsvM_pcsv', 'nm_op_ge__pcsv_pcsvM', 'nm_op_ge__pcsvM_pcsv', 'nm_op_gt__pcsv_pcsvM', 'nm_op_le__pcsv_pcsvM'],
-            'main': ['nm_op_eq__pcsv_pcsv', 'nm_size__pcsv', 'nm_swap__psv_psv', 'nm_erase__psv_pcE'],
+            'main': ['nm_op_eq__pcsv_pcsv', 'nm_size__pcsv', 'nm_swap__psv_psv', 'nm_erase__psv_pcE', 'nm_erase_if__psv_P'],
             'std17': ['nm_op_eq__pcsv_pcsv', 'nm_op_ne__pcsv_pcsv', 'nm_op_lt__pcsv_pcsv', 'nm_op_ge__pcsv_pcsv', 'nm_op_gt__pcsv_pcsv', 'nm_op_le__pcsv_pcsv', 'nm_size__pcsv',
-                      'nm_ssize__pcsv', 'nm_empty__pcsv', 'nm_data__psv', 'nm_begin__psv', 'nm_end__psv', 'nm_swap__psv_psv', 'nm_erase__psv_pcE']},
+                      'nm_ssize__pcsv', 'nm_empty__pcsv', 'nm_data__psv', 'nm_begin__psv', 'nm_end__psv', 'nm_swap__psv_psv', 'nm_erase__psv_pcE', 'nm_erase_if__psv_P']},
     'C15': {'main': ['ai_external_range_length__FI_FI', 'ai_default_uninitialized_copy__FI_FI_pE', 'svb_append_range__strong_FI_FI', 'ai_external_range_length__pcE_pcE',
                      'svb_ctor__ul_pG_pcA', 'svb_ctor__II_II_pcA', 'svb_append_range__II_II', 'svb_append_range__strong_II_II', 'svb_assign_with_range__II_II', 'svb_insert_range__pE_II_II', 'sv_append__II_II', 'sv_ctor__II_II_pcA']},
     'C18': {'pair_gt': ['svb_ctor__psvbM', 'sv_ctor__psvM', 'sv_assign__psvM'], 'pair_lt': ['svb_ctor__psvbM', 'sv_ctor__psvM', 'sv_assign__psvM', 'svb_move_assign__psvbM'],
